@@ -43,11 +43,24 @@ RegionsOf(kind) ==
     [] kind = "sfm"     -> {<<"f", "json">>}
     [] kind = "segmeta" -> {<<"line", "json">>}
     [] kind = "mmeta"   -> {<<"line", "json">>}
-    [] OTHER            -> {<<"f", r>> : r \in {"b0", "head", "body", "tail"}}    \* sst cmi crup tso tsg tth mnm mbsu
+    \* metrics series offsets: version(1) count(8) then per series: tsid(8) offset-into-tsg(4); lo/hi = the two low / the
+    \* remaining high-order bytes of a little-endian field
+    [] kind = "tso"     -> {<<"f", r>> : r \in {"version", "count.lo", "count.hi"}} \cup {<<"rec", r>> : r \in {"tsid", "off.lo", "off.hi"}}
+    \* metrics series data: version(1) then per series: tsid(8) length(4) compressed payload(length)
+    [] kind = "tsg"     -> {<<"f", "version">>} \cup {<<"ser", r>> : r \in {"tsid", "len.lo", "len.hi", "payload"}}
+    [] OTHER            -> {<<"f", r>> : r \in {"b0", "head", "body", "tail"}}    \* sst cmi crup tth mnm mbsu
 LogKinds == {"csg", "cmi", "bsu", "sst", "sfm", "pqmr", "srt", "crup", "segmeta"}
 MetricKinds == {"tso", "tsg", "tth", "mnm", "mbsu", "mmeta"}
 Kinds == LogKinds \cup MetricKinds
 Checksummed(kind) == kind = "csg"
+(* RANGE-CHECKABLE fields of un-checksummed files: an offset / length whose HIGH-order bytes are changed points far
+   outside the file (the files of one segment are a few KB; the readers' pooled buffers have a capacity of at least 1 KB, so a
+   change of the low-order bytes can still land inside the buffer).  Such damage cannot be told from data by a checksum the
+   file does not have, but it IS detectable by comparing the value with the size of the file - the outcome law demands the
+   error, not a series that silently disappears. *)
+RangeChecked(kind, chunk, region) == /\ kind \in {"tso", "tsg"}
+                                     /\ <<chunk, region>> \in {<<"rec", "off.hi">>, <<"ser", "len.hi">>}
+(* (the 8-byte series count of the .tso is not in this set: the reader uses only its low 32 bits, the upper half is dead data) *)
 SharedIndex(kind) == kind \in {"segmeta", "mmeta"}     \* one line per segment in a file shared by all segments
 
 FaultKinds == {"flip", "trunc"}
@@ -112,7 +125,11 @@ Outcomes(c) ==
   THEN CASE ReadChunk(c) = "Verified"   -> {"Original"}
          [] ReadChunk(c) = "Error"      -> {"SegmentError"}
          [] ReadChunk(c) = "Unverified" -> {"SegmentError", "Altered"}
-  ELSE {"Original", "SegmentError", "Altered"}      \* no checksum: the decoder decides
+  ELSE IF fault.fault = "flip" /\ RangeChecked(fault.kind, fault.chunk, fault.region)
+  THEN {"SegmentError"}                             \* a pointer far outside the file: the reader must notice
+  \* no checksum: the decoder decides.  "SeriesMissing" = data of the segment absent from the answer WITHOUT any error
+  \* indication (a changed key - tsid, tag value - is indistinguishable from a series that was never written)
+  ELSE {"Original", "SegmentError", "Altered", "SeriesMissing"}
 
 Read(c, from, to) == /\ phase = from
                      /\ \E o \in Outcomes(c) : out' = [out EXCEPT ![c] = o]
@@ -129,7 +146,10 @@ Spec == Init /\ [][Next]_vars
 
 -----------------------------------------------------------------------------
 (* The outcome law (C18). *)
-Law == \A c \in {"c0", "cN"} : out[c] \in {"-", "Original", "SegmentError"} \cup (IF phase # "intact" /\ ~Checksummed(fault.kind) THEN {"Altered"} ELSE {})
+Law == \A c \in {"c0", "cN"} : out[c] \in {"-", "Original", "SegmentError"} \cup (IF phase # "intact" /\ ~Checksummed(fault.kind) THEN {"Altered", "SeriesMissing"} ELSE {})
+(* detectable damage is reported: never a silently shortened or altered answer *)
+RangeCheckedReported == (phase # "intact" /\ fault.fault = "flip" /\ RangeChecked(fault.kind, fault.chunk, fault.region))
+                          => \A c \in {"c0", "cN"} : out[c] \in {"-", "SegmentError"}
 ChecksummedNeverAltered == (phase # "intact" /\ Checksummed(fault.kind)) => \A c \in {"c0", "cN"} : out[c] # "Altered"
 OthersUnaffected == other \in {"-", "Original"}
 Alive == alive
